@@ -404,19 +404,24 @@ class ReadBucketProxy:
         return self._read(0, 0x44)
 
     def _parse_offsets(self, data):
-        precondition(len(data) >= 0x4)
+        # 'data' comes from the server: a short header is a corrupt share,
+        # not a programming error
+        if len(data) < 0x4:
+            raise LayoutInvalid("share too short to hold a version number -- %d bytes" % (len(data),))
         self._offsets = {}
         (version,) = struct.unpack(">L", data[0:4])
         if version != 1 and version != 2:
             raise ShareVersionIncompatible(version)
 
         if version == 1:
-            precondition(len(data) >= 0x24)
+            if len(data) < 0x24:
+                raise LayoutInvalid("share too short to hold its offset table -- %d bytes" % (len(data),))
             x = 0x0c
             fieldsize = 0x4
             fieldstruct = ">L"
         else:
-            precondition(len(data) >= 0x44)
+            if len(data) < 0x44:
+                raise LayoutInvalid("share too short to hold its offset table -- %d bytes" % (len(data),))
             x = 0x14
             fieldsize = 0x8
             fieldstruct = ">Q"
